@@ -480,3 +480,28 @@ def with_callees(F, b, depth=2, same_file=False):
                 if cb is not None and cb.hir and (not same_file or cb.file == b.file):
                     work.append((cb, d + 1))
     return out
+
+
+def walk_deep(F, node, depth=2, _seen=None):
+    """walk(node), continued into the bodies of the crate functions it calls (to the given depth): what the code does, wherever a
+    maintainer put it.  Functions with more than 150 HIR nodes of calls (the big dispatchers: expr, block ..) are not entered."""
+    _seen = _seen if _seen is not None else set()
+    for n in walk(node):
+        yield n
+        if depth <= 0:
+            continue
+        c = call_def(n) if n.get("k") in ("call", "mcall") else None
+        if c and c not in _seen and F.has(c):
+            cb = F.body(c)
+            if cb is not None and cb.hir:
+                _seen.add(c)
+                ncalls = sum(1 for x in walk(cb.hir.get("value") or {}) if x.get("k") in ("call", "mcall"))
+                if ncalls <= 150:
+                    for m in walk_deep(F, cb.hir.get("value") or {}, depth - 1, _seen):
+                        yield m
+
+
+def nodes_deep(F, node, kind, depth=2):
+    for n in walk_deep(F, node, depth):
+        if n.get("k") == kind:
+            yield n
